@@ -303,6 +303,9 @@ func reachingStores(ld *ssa.UnOp, a *ssa.Alloc) (out []*ssa.Store, uninit bool) 
 				if closureStoresTo(r.(*ssa.MakeClosure), a) {
 					uninit = true
 				}
+			} else if _, isDefer := r.(*ssa.Defer); isDefer {
+				// the address is handed to a deferred call (`defer closeX(ctx, x, &err)`): like a deferred
+				// literal it runs after the result was stored and is taken to add to an error, never to clear one
 			} else {
 				uninit = true
 			}
